@@ -432,7 +432,7 @@ int main( int argc, char** argv )
 {
     mc::Args a = mc::parse_args( argc, argv );
     mc::Report rep; rep.property = "C23"; rep.unit = a.opt.count( "unit" ) ? a.opt[ "unit" ] : "C23_ll_latency";
-    mc::BfsOptions o; o.max_depth = int( a.num( "depth", a.thorough() ? 6 : 4 ) ); o.max_states = 250000;
+    mc::BfsOptions o; o.max_depth = int( a.thorough() ? a.num( "thorough-depth", 6 ) : a.num( "depth", 4 ) ); o.max_states = 250000;
     mc::Bfs< World > bfs( w, rep, a, o );
     if ( !a.replay.empty() ) return bfs.replay_file( mc::read_replay( a.replay ) );
     bfs.run();
